@@ -94,6 +94,15 @@ def run(model, res, tier):
     res.trusted += ['CPython ast', 'list/slice copy semantics']
     cands = find_emitter(model)
     res.floor('emitter classes', len(cands), 1)
+    res.rule('R10', 'listeners carried over to a copy of the parser stay under the names, and with the once / permanent kind, they were '
+             'subscribed with, and the copy and the original do not unsubscribe each other (shared with C03.R6)')
+
+    def _copies(tmp):
+        from . import c03
+        from .. import ctx as _ctxmod
+        c03.copies_are_independent(model, tmp, _ctxmod.get(model), 'R10')
+    from .. import abshelp as _H
+    _H.borrow(res, 'R10', 'copies', _copies)
     for m, c in cands:
         methods = _Methods((n.name, n) for n in c.body if isinstance(n, ast.FunctionDef))
         from .. import abshelp as H
